@@ -100,6 +100,15 @@ bool binson_parser_reset(binson_parser *parser)
         return false;
     }
 
+    /*
+     * Give the navigation state defined values before the buffer is
+     * validated, so that calls made after a rejected init/reset
+     * (leave_object, leave_array, get_depth) never index the state
+     * array with a stale depth.
+     */
+    parser->depth = 0;
+    parser->current_state = &parser->state[0];
+
     if (parser->buffer_size < BINSON_OBJECT_MINIMUM_SIZE) {
         parser->error_flags = BINSON_ERROR_RANGE;
         return false;
